@@ -77,7 +77,13 @@ func R33() Rule {
 			if P.SPkgs[t.pkg] == nil {
 				continue
 			}
-			fn := P.MustFunc(t.pkg, t.fn)
+			fn := P.Func(t.pkg, t.fn)
+			if (fn == nil || fn.Blocks == nil) && t.fn == "(*GcsEmu).finishCompose" {
+				fn = P.Func(t.pkg, "(*GcsEmu).handleGcsCompose") // inlined into its caller's critical section
+			}
+			if fn == nil || fn.Blocks == nil {
+				fn = P.MustFunc(t.pkg, t.fn)
+			}
 			c.Fn(t.fn)
 			n := 0
 			tpkg := t.pkg
@@ -125,15 +131,13 @@ func R34() Rule {
 		P := c.P
 		fn := P.MustFunc(core.PkgGcsemu, "(*GcsEmu).finishUpload")
 		c.Fn("(*GcsEmu).finishUpload")
-		var obj *ssa.Parameter
-		for _, p := range fn.Params {
-			if core.TypeIs(p.Type(), pkgStorageV1, "Object") {
-				obj = p
+		// the upload's object: the *storage.Object parameter, or that field of a request-struct parameter
+		obj := func(v ssa.Value) bool {
+			if v == nil || !core.TypeIs(v.Type(), pkgStorageV1, "Object") {
+				return false
 			}
-		}
-		if obj == nil {
-			c.Unknown("R34", "finishUpload/object-parameter", fn.Pos(), "no *storage.Object parameter")
-			return
+			_, _, isInput := inputOf(fn, v)
+			return isInput
 		}
 		n := 0
 		// finishUpload together with the helpers / lock-section methods it is split into
@@ -161,7 +165,7 @@ func R34() Rule {
 					if !ok || !core.TypeIs(fa.X.Type(), pkgStorageV1, "Object") {
 						continue
 					}
-					if !P.AllOrigins(fa.X, within, func(v ssa.Value) bool { return v == ssa.Value(obj) }) {
+					if !P.AllOrigins(fa.X, within, obj) {
 						continue
 					}
 					n++
@@ -201,7 +205,7 @@ func R34() Rule {
 // failureReadsField: the validation failure at fl (an explicit error under
 // branch conditions, or a validateConds call) is decided by a value derived from
 // field `field` of obj.
-func failureReadsField(P *core.Program, fl ssa.Instruction, obj *ssa.Parameter, field string, within map[*ssa.Function]bool) bool {
+func failureReadsField(P *core.Program, fl ssa.Instruction, obj func(ssa.Value) bool, field string, within map[*ssa.Function]bool) bool {
 	seen := map[ssa.Value]bool{}
 	var dep func(v ssa.Value, depth int) bool
 	dep = func(v ssa.Value, depth int) bool {
@@ -223,7 +227,7 @@ func failureReadsField(P *core.Program, fl ssa.Instruction, obj *ssa.Parameter, 
 			return false
 		case *ssa.UnOp:
 			if fa, ok := x.X.(*ssa.FieldAddr); ok {
-				if _, f, _ := core.FieldName(fa); f == field && P.AllOrigins(fa.X, within, func(o ssa.Value) bool { return o == ssa.Value(obj) }) {
+				if _, f, _ := core.FieldName(fa); f == field && P.AllOrigins(fa.X, within, obj) {
 					return true
 				}
 			}
@@ -744,7 +748,7 @@ func R41() Rule {
 						bi, ni = 0, 1
 					default:
 						if call, isCall := ci.Instr.(*ssa.Call); isCall && depth < 3 && ci.Static != nil && ci.Static.Blocks != nil && ci.Static.Pkg != nil && ci.Static.Pkg.Pkg.Path() == core.PkgGcsemu && ci.Static.Parent() == nil {
-							walk(ci.Static, append(append([]binding(nil), binds...), binding{ci.Static, call}), depth+1)
+							walk(ci.Static, append(append([]binding(nil), binds...), binding{callee: ci.Static, call: call}), depth+1)
 						}
 						continue
 					}
@@ -765,7 +769,7 @@ func R41() Rule {
 					}
 				}
 			}
-			walk(fn, nil, 0)
+			walk(fn, sec.recvBinds(), 0)
 			// … and the locked object is not read back after the section was left: a handler that mutates
 			// (bucket, name) under its lock and then asks the store about the same object outside the lock
 			// describes whatever another request has made of it in the meantime
